@@ -263,6 +263,11 @@ def cicje_recipes():
         for oc, i1, i2 in itertools.product(("All", "Any"), repeat=3):
             out.append(_R("Imply", _R(oc, _R(i1, a, b), _R(i2, c, d)), cn))
             out.append(_R("Imply", _R(oc, _R(i1, a, b, id="S1"), _R(i2, c, d), id="C1"), cn, id="R1"))
+    # sub conditions without components (an empty ALL holds, an empty ANY does not), alone and next to an ordinary one
+    for cn in cons[:4]:
+        for oc, i1, i2 in itertools.product(("All", "Any"), repeat=3):
+            out.append(_R("Imply", _R(oc, _R(i1, a, b), _R(i2)), cn))
+        out.append(_R("Imply", _R("Any"), cn)); out.append(_R("Imply", _R("All"), cn))
     return out
 
 def run_c04(ctx):
@@ -573,6 +578,15 @@ def run_c17(ctx):
     for k, (l1, l2) in enumerate([(W("w", -32768, 32767), W("y", 0, 20000)), (W("w", 0, 30000), W("y", -20000, 5)), (W("w", -32768, 32767), LEAF("a"))]):
         cases.append({"recipe": _cc("Cfg", _R("AtLeast", l1, l2, LEAF("b"), id="R", v=3 + k, s=1), dict(_cc("ccAny", LEAF("a"), LEAF("b"), LEAF("c"), id="X"), d="a"), id="cfg"),
                       "src": "handmade", "wide": True})
+    # twins: the same ids, bounds and thresholds in every node, different classes / defaults / priority tags
+    x, y, z = LEAF("x"), LEAF("y"), LEAF("z")
+    tw = [(_cc("Cfg", dict(_cc("ccAny", x, y, z, id="A"), d="z"), id="main"), _cc("Cfg", _R("Any", z, _R("Any", x, y), id="A"), id="main")),
+          (_cc("Cfg", dict(_cc("ccXor", x, y, id="A"), d="x"), id="main"), _cc("Cfg", _R("Xor", x, y, id="A"), id="main")),
+          (_R("All", _R("AtLeast", x, y, v=1, s=1, id="B"), z, id="T"), _R("All", _R("Any", x, y, id="B"), z, id="T")),
+          (_R("All", _R("AtLeast", x, y, z, v=3, s=1, id="B"), id="T"), _R("All", _R("All", x, y, z, id="B"), id="T"))]
+    for r1, r2 in tw:
+        cases.append({"recipe": r1, "twins": [r2], "src": "handmade"}); cases.append({"recipe": r2, "twins": [r1], "src": "handmade"})
+    ctx.region("twin_packed_first", 2 * len(tw))
     ctx.pmap(drivers.drv_b64, _stamp(cases, "drv_b64"))
     # unpacking in another interpreter (different hash seed)
     pool = [c["recipe"] for c in cases if c.get("src") == "handmade" and not c.get("wide")] + [c["recipe"] for c in cases if c.get("src") == "random"][:150 if ctx.tier == "quick" else 1500]
@@ -1062,6 +1076,8 @@ def run_c15(ctx):
     r = ctx.model_check("PuanBuild", u, invariants=["C01"], dump=True, name="Build_solve")
     sc = spec_cases(ctx, r)
     sc += random_cases(ctx, 150 if q else 2000, ["neg_lower_leaf", "explicit_id", "generated_id"], max_box=32, max_kids=3, depth=2)
+    # inner sub-propositions with explicit ids that merely look generated
+    sc += [c for c in var_prefix_cases(ctx) if c["recipe"]["c"] not in ("Cfg", "ccAny", "ccXor")]
     for c in sc:
         ids = B_leaves(c["recipe"])
         comp_ids = sorted(_explicit(c["recipe"]))
@@ -1377,7 +1393,7 @@ PROPS = {
     "C01": {"run": run_c01, "clauses": {"points_complete", "cols_are_ids", "ev_total", "iff_top", "inactive_feasible", "no_exception"}},
     "C02": {"run": run_c02, "clauses": {"points_complete", "cols_are_ids", "cols_bounds", "complete", "sound_if_safe", "safe_built", "no_exception"}},
     "C03": {"run": run_c03, "clauses": {"dom_ok", "val_equal", "top_equal", "const_on_total", "no_exception"}},
-    "C04": {"run": run_c04, "clauses": {"leaves_same", "table_complete", "truthfn", "truthfn_struct", "id_kept", "gen_flag", "no_exception"}},
+    "C04": {"run": run_c04, "clauses": {"built_valid", "leaves_same", "table_complete", "truthfn", "truthfn_struct", "id_kept", "gen_flag", "no_exception"}},
     "C05": {"run": run_c05, "clauses": {"points_complete", "complement", "complement_struct", "safe_kept", "id_kept", "no_exception"}},
     "C06": {"run": run_c06, "clauses": {"dom_ok", "sound", "top_equal", "eqb_exact", "taut", "contra", "no_exception"}},
     "C07": {"run": run_c07, "clauses": {"result_stable", "rest_complete", "equiv_union", "equiv_struct", "bounds_contain", "no_exception"}},
